@@ -4,8 +4,15 @@
 //! trusted: env: cryptography is uninterpreted: SHA256 (engine stub recording the concatenation of its inputs), ECDH (ecdh(point, secret), with the Diffie-Hellman symmetry ecdh(pt(a), b) == ecdh(pt(b), a) as an axiom), HKDF (hkdf_extract_expand_twice -> two uninterpreted halves), ChaCha20-Poly1305 with empty plaintext (encrypt_with_ad writes the uninterpreted tag(key, n, ad); decrypt_with_ad succeeds iff the received bytes are that tag); PublicKey::from_slice succeeds iff the bytes are the serialization of a key (ser is injective: axiom); NodeSigner::ecdh is the ECDH with the node's secret; LightningError carries no fields (R10 rewrite of the struct literals)
 //! trusted: R8: slice plumbing goes through external_body wrappers with the std meaning: `&act[1..34]` / `&act[34..]` -> sub(act, a, b), `res[1..34].copy_from_slice(x)` / `&mut res[34..]` as the tag destination -> put(res, at, x) / tag_into(res, ..); `x.serialize()[..]` is the 33-byte serialization; R10: `.map_err(|_| E)?` gets an explicit closure signature
 //! assume: acts are 50 bytes (the source asserts it)
+//! trusted: assume_specification for core::cmp::max / core::cmp::min (std definitions): present in every unit so that a change that introduces them is verified instead of being rejected by the tool
 use vstd::prelude::*;
 verus! {
+use vstd::std_specs::cmp::*;
+use core::cmp;
+pub assume_specification<T: core::cmp::Ord>[core::cmp::max::<T>](a: T, b: T) -> (r: T)
+    ensures T::obeys_cmp_spec() ==> r == (if b.cmp_spec(&a) == core::cmp::Ordering::Less { a } else { b });
+pub assume_specification<T: core::cmp::Ord>[core::cmp::min::<T>](a: T, b: T) -> (r: T)
+    ensures T::obeys_cmp_spec() ==> r == (if b.cmp_spec(&a) == core::cmp::Ordering::Less { b } else { a });
 pub struct Secp256k1 {}
 pub struct SecretKey { pub id: u64 }
 #[derive(Clone, Copy)] pub struct PublicKey { pub id: u64 }
